@@ -75,6 +75,7 @@ pub fn gen(rng: &mut Rng, n: usize, out: &mut Vec<String>) {
     crate::mon_venue::staked_lines(rng, n / 10, out);
     // a fifth: the six venue-backed arms' re-scaling, taken from the REAL adapter on real reserve / spot-market accounts
     crate::mon_venue::venue_value_lines(rng, n / 5, out);
+    crate::mon_venue::venue_v4_lines(rng, n / 5, out);
     let n = n - out.len().min(n);
     for i in 0..n {
         let line = match i % 21 {
